@@ -24,7 +24,7 @@ def fl(x):
 # spec helpers
 def leaves(e):
     k = e["k"]
-    if k in ("scale", "chain", "ham", "lin"):
+    if k in ("scale", "chain", "ham", "lin", "vmodel"):
         yield from leaves(e["e"])
     elif k == "sum":
         for s in e["es"]:
@@ -334,6 +334,23 @@ def _gen_case(rng, small, force_kind, simple):
     return {"op": "lh", "dom": dom, "e": e, "pos": pos, "pos2": pos2, "cplx": cplxk, "cls": pos_cls}
 
 
+def gen_vmodel_case(rng, small=True):
+    """VariableCovarianceGaussianEnergy (real) composed with a model on a single input domain: residual A·xi, inverse
+    variance exp(B·xi) (dense, so the pulled-back metric has cross terms); optionally scaled / in a Hamiltonian"""
+    dom = gen_dom(rng, small)
+    n = npix(dom)
+    leaf = {"k": "varcov", "cplx": False, "full": rng.random() < 0.5, "kr": "a", "ki": "b"}
+    e = {"k": "vmodel", "e": leaf, "A": [[rnd(rng, -1.5, 1.5, 2) for _ in range(n)] for _ in range(n)],
+         "B": [[rnd(rng, -0.4, 0.4, 2) for _ in range(n)] for _ in range(n)]}
+    if rng.random() < 0.3:
+        e = {"k": "scale", "c": rnd(rng, 0.1, 4), "e": e, "left": rng.random() < 0.7}
+    if rng.random() < 0.3:
+        e = {"k": "ham", "e": e, "ic": rng.random() < 0.5}
+    b = [rnd(rng, -2, 2) for _ in range(n)]
+    return {"op": "lh", "dom": dom, "e": e, "pos": {"": b}, "pos2": {"": perturb(rng, "real", b)},
+            "cplx": {"": False}, "cls": {"": "real"}}
+
+
 def gen_inv_f(rng, n, cls, cplx):
     """an invertible point-wise function whose image contains the class `cls`"""
     if cplx:
@@ -464,6 +481,10 @@ def model_node(case, e):
             f = e["f"].get(kk, {"f": "id"})
             fs += [model_pf(f, j % m) for j in range(m * (2 if c else 1))]
         return {"k": "ptw", "fs": fs, "e": model_node(case, e["e"])}
+    if k == "vmodel":
+        return {"k": "lin", "rows": 2 * n, "A": [nums(r) for r in e["A"]] + [nums(r) for r in e["B"]],
+                "e": {"k": "ptw", "fs": [{"f": "id"}] * n + [{"f": "exp"}] * n,
+                      "e": {"k": "leaf", "l": model_leaf(e["e"], n)}}}
     leaf = e["e"] if k in ("chain", "lin") else e
     keys = leaf_keys(leaf)
     inner = {"k": "leaf", "l": model_leaf(leaf, n)}
